@@ -443,8 +443,8 @@ func (m *MemoryBackend) Terminate(client *Client) error {
 	m.globalMutex.Lock()
 	defer m.globalMutex.Unlock()
 
-	// get session
-	sess := client.Session().(*memorySession)
+	// get session, the client has none if its setup failed
+	sess, _ := client.Session().(*memorySession)
 
 	// release session if available
 	if sess != nil {
